@@ -92,6 +92,37 @@ PROPS = {
     trusted_base=['crypto/x509.ParseCertificate is the reference for the field-agreement clause (differential, not a theorem)', 'encoding/pem block finding and encoding/asn1 are oracles'],
     assumptions=['the DER decoder itself is not modelled in Lean; theorems cover ModHex and PEM bundle ordering'],
  ),
+ 'C12': dict(
+    group='serve', only=['serve'], ops=['serve'],
+    modules=['Ysshra.Props.C12', 'Ysshra.Bridge.Wire'],
+    theorem_files=['Props/C12.lean', 'Bridge/Wire.lean'],
+    anchors=['agent/yubiagent/'],
+    n=dict(quick=3000, thorough=120000),
+    trivial=lambda c: c['args'][1] == '[]',
+    rule='byte streams: frames of length 0 and 1 for every code 0..255, truncated headers and bodies, declared lengths 1 .. 2^32-1 (incl. 16 MiB and 16 MiB+1), '
+         'concatenations of 1..4 grammar-derived frames (both add-hardware-certificate encodings with valid / invalid / trailing data, slot names, wait codes, '
+         'list / sign / add / constrained add with truncated constraints / remove / lock / unlock, unknown and raw-forwarded codes, random bodies) with truncated or random tails. '
+         'Non-trivial = the stream contains at least one complete frame; distinct = distinct argument fields.',
+    trusted_base=['ssh.ParsePublicKey verdicts and the reply of x/crypto\'s standard agent server to each single standard request are oracles computed by the harness with the same library calls',
+                  'allocation is observed through runtime.MemStats.TotalAlloc around the call'],
+    assumptions=['ServeAgent as repaired for findings F2 (length guards) and F3 (recover around the forwarded standard request)'],
+ ),
+ 'C13': dict(
+    group='serve', only=['rpc', 'slots'], ops=['rpc', 'slots'],
+    modules=['Ysshra.Props.C13', 'Ysshra.Bridge.Wire'],
+    theorem_files=['Props/C13.lean'],
+    anchors=['agent/yubiagent/'],
+    n=dict(quick=1500, thorough=40000),
+    timeout=dict(quick=900, thorough=3000),
+    trivial=lambda c: False,
+    rule='rpc: one client operation per case through NewClientFromConn <-> ServeAgent over a Unix socket pair against a recording scripted agent: add-hardware-certificate (valid / unparsable blobs, comments incl. failure texts), '
+         'list-slots (well-formed, comma-containing and empty names x error texts), read/attest-slot (certificate, certificate+error, error, unknown), wait codes, raw forward of uninterpreted codes, '
+         'sign (0..64 KiB data, all flags, failing), add (comments, lifetime, confirm), remove, remove-all, list, lock/unlock (passphrases, failing). '
+         'slots: (*server).ListSlots with a fake yubico-piv-tool first on PATH printing well-formed, short, truncated, CRLF, empty output or exiting non-zero; remote mode. Every case is non-trivial; distinct = distinct argument fields.',
+    trusted_base=["x/crypto's agent client and server carry the standard operations; ysshra's part is the one-frame forwarder (modelled as identity, checked by correspondence)",
+                  'ssh.ParsePublicKey verdicts are oracles on the case line', 'os/exec and the fake PIV tool'],
+    assumptions=['well-formedness required by the wire format is explicit in the theorems; the excluded points are the known findings F11a-c'],
+ ),
 }
 
 NOT_APPLICABLE = {}
@@ -140,4 +171,18 @@ MANIFEST_TEXT = {
     design_ref='DESIGN.md §7 C16',
     note=_NOTE + 'encoding/asn1, encoding/pem, crypto/x509 are the reference, not verified.',
     technique='Lean 4 proof (ModHex, PEM ordering) + differential run against crypto/x509 for the decoding clause'),
+ 'C12': dict(
+    text='Lean theorems for every byte stream and every behaviour of the served agent and libraries (oracles indexed by request number): no request buffer above 16 MiB is allocated, oversize declarations are refused before allocation, '
+         'empty frames and code-less wait frames end the connection with an error, every complete accepted request frame gets exactly one response frame in request order (induction over the frame list), a clean end of stream after them is not an error. '
+         'Dispatch partition, bound, guards before every req[k], broadcast-before-dispatch and the recovering wrapper are regenerated from server.go / io.go each run; the loop model is compared with ServeAgent on generated streams.',
+    design_ref='DESIGN.md §7 C12',
+    note=_NOTE + "x/crypto's agent server and ssh.ParsePublicKey are oracles.",
+    technique='Lean 4 proof (induction over frames, decision logic) over regenerated dispatch facts + stream-level correspondence'),
+ 'C13': dict(
+    text='Lean theorems composing client encoder, server dispatch and client decoder for add-hardware-certificate (both wire formats), list-slots, read/attest-slot, wait and raw forward: the served agent receives the caller arguments and the caller the agent result, '
+         'under the well-formedness the wire format forces (comma-free non-empty slot names, error text other than the in-band markers); companion theorems prove the excluded points really do not round-trip (known findings F11a-c). '
+         'Slot-listing parser characterised for every tool output. Standard agent operations and the fake-tool runs are covered by correspondence.',
+    design_ref='DESIGN.md §7 C13',
+    note=_NOTE + "x/crypto client/server for the standard operations and os/exec are trusted.",
+    technique='Lean 4 proof (codec round-trips through the dispatch model) + client/server correspondence'),
 }
